@@ -99,8 +99,10 @@ def b(ck: Check) -> None:
     cand = text(base)
     probs = []
     # candidates: all network variables minus constants, removed before the loop
+    from .symstr import SymEval
+    se = SymEval(fm)
     cd = [n for n in f.node.body if isinstance(n, ast.Assign) and text(n.targets[0]) == cand]
-    if not cd or "network_variable_names()" not in text(cd[0].value):
+    if not cd or "network_variable_names()" not in se.val(cd[0].value, fm.cfgn(cd[0])):
         probs.append(f"`{cand}` does not start as the set of all network variables")
     pre = [n for n in f.node.body if isinstance(n, ast.For) and n.lineno < wl.lineno]
     okc = False
@@ -133,8 +135,8 @@ def b(ck: Check) -> None:
     wd = [n for n in f.node.body if isinstance(n, ast.Assign) and text(n.targets[0]) == work]
     if not wd or f"copy({sp})" not in text(wd[0].value) and text(wd[0].value) not in (f"dict({sp})", f"{sp}.copy()", f"{{**{sp}}}"):
         probs.append("propagation does not start from a copy of the given space")
-    fnd = fm.deref(fe[0].args[0], fm.cfgn(fe[0]))
-    if text(fnd) != f"{net}.mk_update_function({var})":
+    fat = fm.cfgn(fe[0])
+    if se.val(fe[0].args[0], fat) != f"{net}.mk_update_function({se.val(ast.Name(var, ast.Load()), fat)})":
         probs.append("the evaluated function is not the update function of the scanned variable")
     res = None
     rets = [r for r in own_walk(f.node) if isinstance(r, ast.Return)]
@@ -233,15 +235,29 @@ def c(ck: Check) -> None:
         se = SymEval(fm, assume=assume)
         H = se.hypothesis()
         reached = 0
+        def split(e, at, cnd):
+            """(condition, value token) for every way a returned (conditional) expression can evaluate"""
+            x, at2 = fm.deref_at(e, at) if e is not None else (None, at)
+            if isinstance(x, ast.IfExp):
+                t_ = se.truth(x.test, at2)
+                if t_ is True:
+                    return split(x.body, at2, cnd)
+                if t_ is False:
+                    return split(x.orelse, at2, cnd)
+                c_ = se.translator(at2).f(x.test)
+                return split(x.body, at2, logic.And(cnd, c_)) + split(x.orelse, at2, logic.And(cnd, logic.Not(c_)))
+            return [(cnd, se.val(e, at) if e is not None else "None")]
+
+        outcomes = []
         for r in own_walk(f.node):
-            if not isinstance(r, ast.Return):
-                continue
-            rn = fm.cfgn(r)
-            hyp = logic.And(H, se.cond(rn))
+            if isinstance(r, ast.Return):
+                rn = fm.cfgn(r)
+                outcomes += [(c_, v_, rn) for c_, v_ in split(r.value, rn, se.cond(rn))]
+        for cnd_r, v, rn in outcomes:
+            hyp = logic.And(H, cnd_r)
             if not logic.satisfiable(hyp):
                 continue
             reached += 1
-            v = se.val(r.value, rn) if r.value is not None else "None"
             if const is not None:
                 # restricting a constant gives the same constant: both spellings of the test are accepted
                 same = {f"T:{R}.is_true()": const == "1", f"T:{R}.is_false()": const == "0"}
@@ -250,9 +266,9 @@ def c(ck: Check) -> None:
                     probs.append(f"for {label} the function can return {v} (expected {const})")
             else:
                 if v == "1" and not logic.implies(hyp, IS_T):
-                    probs.append(f"returns 1 under `{logic.show(se.cond(rn))[:100]}`; expected only when the restricted function is true")
+                    probs.append(f"returns 1 under `{logic.show(cnd_r)[:100]}`; expected only when the restricted function is true")
                 elif v == "0" and not logic.implies(hyp, IS_F):
-                    probs.append(f"returns 0 under `{logic.show(se.cond(rn))[:100]}`; expected only when the restricted function is false")
+                    probs.append(f"returns 0 under `{logic.show(cnd_r)[:100]}`; expected only when the restricted function is false")
                 elif v == "None" and not logic.implies(hyp, logic.And(logic.Not(IS_T), logic.Not(IS_F))):
                     probs.append("None returned although the restricted function is a constant")
                 elif v not in ("0", "1", "None"):
